@@ -61,6 +61,26 @@ SPECS = [
          ],
          raises={'*': {'ensures': ["raised('e7') or raised('h1')"]}},
          serves=PROP + ["C02"]),
+    dict(id='S-Replace', text='A<p tal:replace="e7">x</p>B',
+         ensures=[
+             "evals(7) == 1",
+             # default keeps the whole element as written; anything else replaces the element
+             # (tags included) by the escaped value, None by nothing
+             "val(7) is not DEFAULT() or S() == S0() + 'A<p>x</p>B'",
+             "val(7) is DEFAULT() or S() == S0() + 'A' + ('' if quoted(val(7), None, '\\xad', None, None) is None else piece(quoted(val(7), None, '\\xad', None, None))) + 'B'",
+         ],
+         raises={'*': {'ensures': ["raised('e7')"]}},
+         serves=PROP + ["C02"]),
+    dict(id='S-Structure', text='A<p tal:content="structure e7">x</p>B',
+         ensures=[
+             "evals(7) == 1",
+             "val(7) is not DEFAULT() or S() == S0() + 'A<p>x</p>B'",
+             # the documented opt-out: converted to text but NOT escaped
+             "val(7) is DEFAULT() or (quote_calls() == 0 and S() == S0() + 'A<p>' + "
+             "('' if converted(val(7)) is None else piece(converted(val(7)))) + '</p>B')",
+         ],
+         raises={'*': {'ensures': ["raised('e7')"]}},
+         serves=PROP + ["C02", "C04"]),
     dict(id='S-OmitTag', text='A<p tal:omit-tag="e8">%s</p>B' % H1,
          ensures=[
              "evals(8) == 1", "holes(1) == 1",
